@@ -22,7 +22,7 @@ EXPLANATION = (
     "depth, is_root, ...) read only the parent direction of the links, the subtree attributes (descendants, leaves, height, "
     "size, is_leaf) only the children direction, transitively through getters and iterators. N2 structural definitional checks that are shape-independent: is_root "
     "tests the parent against None by identity, is_leaf tests emptiness of the children list, siblings/ancestors return () "
-    "for a root. N4 util.commonancestors reads exactly the `ancestors` chain of every argument. N5 siblings are assembled from the "
+    "for a root. N4 util.commonancestors reads exactly the `ancestors` chain of every argument. Also N4: a loop over the arguments that carries nothing from one iteration to the next leaves only the last argument in the result. N8 a navigation value cached in a private memo field is dropped in the same atomic step as every write of the links it is computed from (a planted fixture keeps the rule exercised). N5 siblings are assembled from the "
     "parent's children in their stored order (no sort/reverse/set on the way). N6 no deferred computation (lambda, generator "
     "expression, nested function) that outlives a loop captures a variable the loop rebinds, and no loop variable is read after "
     "its loop as if it were the last element. N7 descendants/leaves keep the order of PreOrderIter(self) (no reordering call "
@@ -135,7 +135,7 @@ def run(ctx):
         d = set()
         if ft is not None:
             for n in walk_own(f.node):
-                if isinstance(n, ast.Attribute) and isinstance(n.ctx, ast.Load) and has_node(ft.type_of(n.value)):
+                if isinstance(n, ast.Attribute) and isinstance(n.ctx, ast.Load) and "node" in (ft.type_of(n.value) or ()):
                     if n.attr in PSET:
                         d.add("P")
                     elif n.attr in CSET:
@@ -181,13 +181,26 @@ def run(ctx):
     ft_ca = typer.results.get(ca)
     read = {}
     for n_ in walk_own(ca.node):
-        if isinstance(n_, ast.Attribute) and isinstance(n_.ctx, ast.Load) and ft_ca is not None and has_node(ft_ca.type_of(n_.value)):
+        if isinstance(n_, ast.Attribute) and isinstance(n_.ctx, ast.Load) and ft_ca is not None and "node" in (ft_ca.type_of(n_.value) or ()):
             read.setdefault(n_.attr, []).append(n_)
     if set(read) == {"ancestors"}:
         ctx.inst("N4", ca, read["ancestors"][0], "every argument contributes its `ancestors` chain (and nothing else)")
     else:
         ctx.viol("N4", ca, ca.node, "commonancestors reads %s of its arguments; by definition it is the common prefix of the `ancestors` chains "
                  "of all of them alike" % sorted(read), construct="commonancestors reads %s" % sorted(read))
+    # every argument also has to reach the result: a loop over the arguments out of which nothing of the earlier iterations
+    # survives (no variable carried from one iteration to the next, no in-place accumulation, no exit taken inside it)
+    # leaves only its LAST argument in the values read after it
+    va = ca.node.args.vararg.arg if ca.node.args.vararg else None
+    if va is not None:
+        for lp, names in _last_iteration_only_loops(ca.node, va):
+            ctx.viol("N4", ca, lp, "the loop over the arguments carries nothing from one iteration to the next: `%s` read after it "
+                     "depend(s) on the last argument only, so an argument in the middle does not narrow the common prefix" % ", ".join(sorted(names)),
+                     construct="commonancestors: loop over the arguments keeps only its last iteration (%s)" % ", ".join(sorted(names)))
+    # ---- N8: a cached navigation value is dropped together with every change of the links it is computed from
+    from ..memo import check_fixture, rule_coherence
+    check_fixture(ctx)
+    rule_coherence(ctx, "N8")
     # ---- N5: siblings keep the parent's child order (structural part: how the result is assembled from the parent's
     # children; the selection test itself is N2/C17's subject)
     from .common import expand_straightline
@@ -244,7 +257,9 @@ def run(ctx):
         for why, node in _loop_variable_leaks(f.node):
             ctx.viol("N6", f, node, why)
         ctx.inst("N6", f, f.qual, "no deferred computation captures a loop-rebound variable")
-    if ctx.extra.get("N7_unfollowed") and not ctx.findings:
+    if ctx.extra.get("undecided") and not ctx.new_findings():
+        raise AnalysisError("C04 " + "; ".join(ctx.extra["undecided"][:2]))
+    if ctx.extra.get("N7_unfollowed") and not ctx.new_findings():
         raise AnalysisError("C04 N7: " + "; ".join(ctx.extra["N7_unfollowed"][:2]))
     ctx.floor("N1", 30)
     ctx.floor("N2", 8)
@@ -417,4 +432,122 @@ def _loop_variable_leaks(fnode):
                 if not targets:
                     break
     scan(fnode.body)
+    return out
+
+
+def _last_iteration_only_loops(fnode, seqname):
+    """-> [(for node, {names})]: for loops over (a slice / enumeration of) the argument tuple `seqname` in whose body no value
+    is carried between iterations although names assigned in it are read after the loop.  Carried = some read of a name the
+    body assigns that is not preceded, in the same iteration, by a definite assignment of it; an in-place mutation or
+    augmented assignment of such a name; an exit (break/return/raise/yield) of this loop inside the body."""
+    def derives(e):
+        while True:
+            if isinstance(e, ast.Subscript):
+                e = e.value
+            elif isinstance(e, ast.Call) and isinstance(e.func, ast.Name) and e.func.id in ("enumerate", "iter", "reversed", "list", "tuple") and e.args:
+                e = e.args[0]
+            else:
+                break
+        return isinstance(e, ast.Name) and e.id == seqname
+    out = []
+    body_all = list(ast.walk(fnode))
+    for lp in body_all:
+        if not (isinstance(lp, ast.For) and derives(lp.iter)):
+            continue
+        assigned = set()
+        for st in lp.body:
+            for n in ast.walk(st):
+                if isinstance(n, ast.Name) and isinstance(n.ctx, ast.Store):
+                    assigned.add(n.id)
+        for n in ast.walk(lp.target):
+            if isinstance(n, ast.Name):
+                assigned.discard(n.id)
+        loopvars = {n.id for n in ast.walk(lp.target) if isinstance(n, ast.Name)}
+        carried = [False]
+
+        def reads(e, definite):
+            for n in ast.walk(e):
+                if isinstance(n, ast.Name) and isinstance(n.ctx, ast.Load) and n.id in assigned and n.id not in definite:
+                    carried[0] = True
+                # in-place accumulation on something that lives across iterations
+                if isinstance(n, ast.Call) and isinstance(n.func, ast.Attribute) and isinstance(n.func.value, ast.Name) \
+                        and n.func.value.id not in definite and n.func.value.id not in loopvars \
+                        and n.func.attr in ("append", "extend", "add", "update", "insert", "appendleft", "intersection_update", "difference_update", "pop", "remove", "clear", "setdefault"):
+                    carried[0] = True
+
+        def stores(t, definite):
+            for n in ast.walk(t):
+                if isinstance(n, ast.Name) and isinstance(n.ctx, ast.Store):
+                    definite.add(n.id)
+                elif isinstance(n, (ast.Subscript, ast.Attribute)) and isinstance(n.ctx, ast.Store):
+                    carried[0] = True  # a store into an object: survives the iteration
+
+        def block(stmts, definite, inner):
+            for st in stmts:
+                if isinstance(st, (ast.Return, ast.Raise)) or (isinstance(st, ast.Break) and not inner):
+                    carried[0] = True
+                if isinstance(st, ast.Assign):
+                    reads(st.value, definite)
+                    for t in st.targets:
+                        stores(t, definite)
+                elif isinstance(st, ast.AugAssign):
+                    reads(st.value, definite)
+                    if isinstance(st.target, ast.Name):
+                        if st.target.id not in definite:
+                            carried[0] = True
+                    else:
+                        carried[0] = True
+                elif isinstance(st, ast.AnnAssign):
+                    if st.value is not None:
+                        reads(st.value, definite)
+                        stores(st.target, definite)
+                elif isinstance(st, ast.If):
+                    reads(st.test, definite)
+                    d1, d2 = set(definite), set(definite)
+                    block(st.body, d1, inner)
+                    block(st.orelse, d2, inner)
+                    definite |= (d1 & d2)
+                elif isinstance(st, (ast.For, ast.While)):
+                    if isinstance(st, ast.For):
+                        reads(st.iter, definite)
+                        d1 = set(definite)
+                        stores(st.target, d1)
+                    else:
+                        reads(st.test, definite)
+                        d1 = set(definite)
+                    block(st.body, d1, True)
+                    block(st.orelse, set(definite), inner)
+                elif isinstance(st, ast.Try):
+                    d1 = set(definite)
+                    block(st.body, d1, inner)
+                    for h in st.handlers:
+                        block(h.body, set(definite), inner)
+                    block(st.orelse, d1, inner)
+                    block(st.finalbody, set(definite), inner)
+                elif isinstance(st, ast.With):
+                    for it in st.items:
+                        reads(it.context_expr, definite)
+                        if it.optional_vars is not None:
+                            stores(it.optional_vars, definite)
+                    block(st.body, definite, inner)
+                elif isinstance(st, (ast.Expr, ast.Assert, ast.Delete)):
+                    for ch in ast.iter_child_nodes(st):
+                        reads(ch, definite)
+                    if isinstance(st, ast.Expr) and isinstance(st.value, (ast.Yield, ast.YieldFrom)):
+                        carried[0] = True
+                elif isinstance(st, (ast.Pass, ast.Continue, ast.Break, ast.Return, ast.Raise)):
+                    for ch in ast.iter_child_nodes(st):
+                        reads(ch, definite)
+                else:
+                    carried[0] = True  # anything else: do not judge
+        block(lp.body, set(loopvars), False)
+        if carried[0] or lp.orelse:
+            continue
+        after = set()
+        end = getattr(lp, "end_lineno", lp.lineno)
+        for n in body_all:
+            if isinstance(n, ast.Name) and isinstance(n.ctx, ast.Load) and n.lineno > end and n.id in (assigned | loopvars):
+                after.add(n.id)
+        if after:
+            out.append((lp, after))
     return out
